@@ -60,6 +60,9 @@ VECTORS = [
     (["version", "--source", "stdin"], RON_OK.replace("Some(1)", "Some(-1)")),
     (["version", "--source", "stdin"], "\x00\xff garbage"),
     (["version", "--source", "stdin"], "1.2.3"),
+    # stdin that is not UTF-8 (reading it fails with a bare io::Error, not a ZervError): a failure like any other — diagnostic, non-zero status (seed V13_2)
+    (["version", "--source", "stdin"], b"(schema: \xff\xfe)\n"),
+    (["flow", "--source", "stdin"], b"\xc3\x28"),
     (["version", "--source", "bogus"], None),
     (["flow"] + NONE + ["1.2.3", "--distance", "2", "--bumped-branch", "feature/x"], None),
     (["flow"] + NONE + ["1.2.3", "--distance", "2", "--bumped-branch", "release/7/x", "--output-format", "pep440"], None),
